@@ -872,8 +872,11 @@ protected:
 			setzero();
 		}
 		else {
-			x[0] = static_cast<double>(v);
-			x[1] = static_cast<double>(v - static_cast<int64_t>(x[0]));
+			// int64_t(double(v)) is out of range when v rounds up to 2^63: convert the two halves of v, which are exact, and normalize
+			int64_t low = v & 0xFFFFFFFF;
+			double h = static_cast<double>(v - low), l = static_cast<double>(low);
+			x[0] = h + l;
+			x[1] = l - (x[0] - h);
 			x[2] = 0.0;
 			x[3] = 0.0;
 		}
